@@ -116,10 +116,10 @@ func (mbox *Mailbox) appendLiteral(r imap.LiteralReader, options *imap.AppendOpt
 	return mbox.appendBytes(buf.Bytes(), options), nil
 }
 
-func (mbox *Mailbox) copyMsg(msg *message) *imap.AppendData {
-	return mbox.appendBytes(msg.buf, &imap.AppendOptions{
-		Time:  msg.t,
-		Flags: msg.flagList(),
+func (mbox *Mailbox) copySnapshot(snapshot *messageSnapshot) *imap.AppendData {
+	return mbox.appendBytes(snapshot.msg.buf, &imap.AppendOptions{
+		Time:  snapshot.msg.t,
+		Flags: snapshot.flags,
 	})
 }
 
